@@ -184,6 +184,24 @@ def read_image(root, elf="out.elf"):
     return syms, secs
 
 
+def symbol_sections(root, elf):
+    """symbol name -> name of the output section that holds it (None for absolute/undefined)"""
+    rc, out = _run(["readelf", "-SW", elf], root)
+    names = {}
+    for line in out.split("\n"):
+        m = re.match(r"\s*\[\s*(\d+)\]\s+(\S+)", line)
+        if m:
+            names[int(m.group(1))] = m.group(2)
+    rc, out = _run(["readelf", "-sW", elf], root)
+    res = {}
+    for line in out.split("\n"):
+        f = line.split()
+        if len(f) >= 8 and f[0].rstrip(":").isdigit():
+            ndx = f[6]
+            res[f[7]] = names.get(int(ndx)) if ndx.isdigit() else None
+    return res
+
+
 def link(root, script_text, archives, defsyms=None, extra_args=(), out="out.elf", script_name="script.ld",
          file_order=None):
     with open(os.path.join(root, script_name), "w") as f:
